@@ -25,7 +25,7 @@ for pid in ALL:
             "evidence_file": f"/verif/evidence/{pid}.json",
             "replay_cmd_template": f"/venv/bin/python harness/check.py {pid} --replay {{path}}",
             "engine": "coq-model+correspondence",
-            "level_claimed": {"category": "proof", "text": c["text"], "design_ref": c.get("ref", "DESIGN.md section 4 " + pid)},
+            "level_claimed": {"category": "proof", "text": c["text"] + md.HISTORY_SUFFIX.get(pid, md.HISTORY_SUFFIX["*"]), "design_ref": c.get("ref", "DESIGN.md section 4 " + pid)},
             "level_note": c["note"],
             "technique": c["technique"],
         })
